@@ -170,6 +170,7 @@ def run(ctx):
         from rules import C02
         C02.address_size_rule(ctx, facts, cfg, 'C03.g')
         reader_demand_rule(ctx, facts, cfg)
+        name_producer_rule(ctx, facts, cfg)
     ctx.assume('cursor invariants of accepted packets (offset <= offset_next <= len) are run-time facts and are not decided here')
 
 
@@ -609,6 +610,66 @@ def pointer_budget_rule(ctx, facts, cfg):
                               % (key.split('::')[-1], top, budget), site=f['at'], config=cfg)
     if n < 1:
         ctx.violation(rid, '<floor>', 'readers with a pointer budget', 'no trusted reader with a pointer budget found (expected raw_name_to_str)', kind='below-floor')
+
+
+def name_producer_rule(ctx, facts, cfg):
+    """C03.j: the two owner-name accessors hand out nothing but what the trusted name decoders produce.  copy_raw_name: the caller's
+    vector reaches no callee other than Compress::copy_uncompressed_name (no verbatim append of packet bytes: a name ending in a
+    compression pointer would be handed out compressed), and what it returns is 0 or that call's name_len.  name(): the vector
+    returned is Vec::new() or the result of Compress::raw_name_to_str, touched afterwards only by make_ascii_lowercase."""
+    rid = 'C03.j'
+    n = 0
+    for key in facts.inst_keys('rr_iterator::TypedIterable::copy_raw_name'):
+        f = facts.fns[key]
+        defs = F.single_defs(f)
+        n += 1
+        bad = []
+        producers = 0
+        for bi, b in F.blocks(f):
+            t = b['term']
+            if t['k'] != 'call':
+                continue
+            p = F.call_path(t) or ''
+            takes_out = any(('param', 2) in F.roots(f, defs, a) for a in t['args'] if a.get('k') in ('copy', 'move'))
+            if not takes_out:
+                continue
+            if p.endswith('Compress::copy_uncompressed_name'):
+                producers += 1
+                src = F.roots(f, defs, t['args'][1]) if len(t['args']) > 1 else []
+                if not any(r[0] == 'load' and F.last_field(r[1]) and F.last_field(r[1])[1] == 'packet' for r in src) and not any(r[0] == 'call' and r[1].endswith('::raw') for r in src):
+                    bad.append((t['at'], 'copy_uncompressed_name is not given the packet of the cursor'))
+            else:
+                bad.append((t['at'], 'the output vector is handed to %s' % p.split('::')[-1]))
+        if producers < 1:
+            bad.append((f['at'], 'no call of Compress::copy_uncompressed_name on the output vector'))
+        ctx.instance(rid, '%s: the output vector is written by Compress::copy_uncompressed_name only' % key, ok=not bad, site=f['at'])
+        for at, why in bad:
+            ctx.violation(rid, key, 'raw-name-producer', 'copy_raw_name in %s: %s: the raw owner name must be the decoded (pointer-free) name, which only the trusted decoder produces'
+                          % (key.split('@')[-1], why), site=at, config=cfg)
+    for key in facts.inst_keys('rr_iterator::TypedIterable::name'):
+        f = facts.fns[key]
+        defs = F.single_defs(f)
+        n += 1
+        bad = []
+        decoders = 0
+        for bi, b in F.blocks(f):
+            t = b['term']
+            if t['k'] != 'call':
+                continue
+            p = F.call_path(t) or ''
+            if p.endswith('Compress::raw_name_to_str'):
+                decoders += 1
+            elif 'Vec' in p and p.split('::')[-1] in ('push', 'extend_from_slice', 'extend', 'insert', 'truncate', 'pop', 'resize', 'from', 'to_vec', 'split_off', 'drain', 'remove', 'retain'):
+                bad.append((t['at'], 'the name is edited with %s' % p.split('::')[-1]))
+            elif p.endswith('::to_vec') or p.endswith('::to_owned'):
+                bad.append((t['at'], 'bytes are copied with %s' % p.split('::')[-1]))
+        if decoders < 1:
+            bad.append((f['at'], 'no call of Compress::raw_name_to_str'))
+        ctx.instance(rid, '%s: the text handed out is the result of Compress::raw_name_to_str' % key, ok=not bad, site=f['at'])
+        for at, why in bad:
+            ctx.violation(rid, key, 'name-producer', 'name() in %s: %s' % (key.split('@')[-1], why), site=at, config=cfg)
+    if n < 4:
+        ctx.violation(rid, '<floor>', 'owner-name accessors', 'found %d instances of copy_raw_name / name, expected at least 4' % n, kind='below-floor')
 
 
 def opt_skip(ctx, facts, cfg):
